@@ -452,6 +452,9 @@ func (x *Exec) step(op *Op) {
 		x.rmIndex(op.Segs)
 	case "backup":
 		if x.l == nil {
+			if op.Var%2 == 1 {
+				x.backupClosed(op)
+			}
 			return
 		}
 		x.backup(op)
@@ -692,6 +695,9 @@ func (x *Exec) emitVersions(op string, before []SegProj, target int) {
 	x.emit("layout", map[string]any{"segs": segsJSON(before), "stale": 0, "j": false})
 	x.emit("versions", map[string]any{"after": layJSON(after), "op": op, "newver": effVer(x.cur), "keep": x.cur.Keep,
 		"eager": x.cur.Eager, "target": target})
+	if x.obs.JudgeLayout {
+		x.emitLayout(false) // the files after the operation: parse, re-encode, index = derived
+	}
 }
 
 func (x *Exec) emitLayout(closed bool) {
